@@ -1214,6 +1214,8 @@ type runner struct {
 	dir   string
 	s     *run.Sess
 	trace []string
+
+	shortWait bool
 }
 
 func (r *runner) note(format string, args ...interface{}) {
@@ -1300,8 +1302,10 @@ func (r *runner) start() *fw.Violation {
 			files[t+".csv"] = csvText(m.tabs[t])
 		case "stdin":
 			opt.HasStdin, opt.Stdin = true, csvText(m.tabs[t])
-			if !avoid("stdin", avoidStdinSecondDMLLockTimeout) {
-				// the session waits for its own lock: nobody else can hold it, a short wait loses nothing
+			if r.shortWait {
+				// the history holds two for-update statements on STDIN in one transaction: if the
+				// session waits there, it waits for its own lock (nobody else can hold the lock of a
+				// private session), so a short wait loses nothing
 				opt.WaitTimeout = 3 * time.Second
 			}
 		}
@@ -1442,6 +1446,9 @@ func (r *runner) step(st stepExp) *fw.Violation {
 
 func runHistory(c histCase, steps []stepExp, cpu int) *fw.Violation {
 	r := &runner{c: c, nm: c.naming(), cpu: cpu}
+	for _, st := range steps {
+		r.shortWait = r.shortWait || st.stdinAgain
+	}
 	defer r.finish()
 	if v := r.start(); v != nil {
 		return v
